@@ -1,4 +1,180 @@
-/- Driver of the `staking` world (stub: to be written by the owner of this world). -/
+/-
+  Driver of the `staking` world: replays an ops file through `Mx.Staking.step` and prints one
+  result line per op line (byte-identical to what harness/src/bin/w_staking.rs prints for the real
+  farm-staking contract + energy-factory-mock + permissions-hub).  Core/Driver imports only.
+
+  header : W staking epoch=<e0> block=<b0> dsc=<d> apr=<a> mu=<minUnbond> pb=<perBlock> users=<n>
+  accounts: u<i> → i (users), p1 → 101 (on the SC whitelist), p2 → 102 (not whitelisted); `-` = none
+  payments: <nonce>:<amount>
+  ops    : stake <c> <orig|-> <amt> [pay…]            stakeProxy <c> <orig> <amt> [pay…]
+           stakeBehalf <c> <user> <amt> [pay…]        claim <c> <orig|-> <pay>
+           claimNew <c> <orig> <new> <pay>            claimBehalf <c> <pay> [pay…]
+           compound <c> <pay> [pay…]                  unstake <c> <orig|-> <pay>
+           unstakeProxy <c> <orig> <x> <pay>          unbond <c> <pay>
+           merge <c> <pay> [pay…]                     claimBoosted <c> <user|->
+           transfer <from> <to> <pay>                 setEnergy <u> <amount> <locked>     updEnergy <u>
+           topUp <x>  withdraw <x>  setApr <x>  setPerBlock <x>  startProduce  endProduce
+           setMinUnbond <e>  setPct <p>  setFactors <maxF> <cE> <cF> <minE> <minF>  collectUndist
+           pause  resume  hubWl <user> <addr>  hubRm <user> <addr>  advance <blocks> <epochs>
+           calcAsUser <amt> <rps> <comp> <cur> <owner>     (the view called by a plain account: must fail)
+           bad …                                            (malformed call: must fail)
+  views  : Q <n> calc <amt> <rps> <comp> <cur> <owner>      (VM query; its settlement is committed)
+-/
+import MxModel.Core.Staking
 import MxModel.Driver.Proto
 
-def main : IO Unit := Mx.Proto.mainLoop () (fun s _ => (s, none))
+open Mx Mx.Weekly Mx.Staking Mx.Proto
+
+namespace Mx.StakingDriver
+
+abbrev SSt := Mx.Staking.St
+
+/-- how many bucket ids past `firstBucketId` are printed -/
+def BUCKET_SPAN : Nat := 216
+
+def parseAddr (t : String) : Option Nat :=
+  match t.toList with
+  | 'u' :: r => (String.ofList r).toNat?
+  | 'p' :: r => (String.ofList r).toNat?.map (· + 100)
+  | 'z' :: _ => some 0
+  | _ => none
+
+def parseOpt (t : String) : Option (Option Nat) :=
+  if t = "-" then some none else (parseAddr t).map some
+
+def nameOf (i : Nat) : String :=
+  if i = 0 then "z" else if i > 100 then s!"p{i - 100}" else s!"u{i}"
+
+def parsePay (t : String) : Option Pay :=
+  match t.splitOn ":" with
+  | [a, b] => do pure (← a.toNat?, ← b.toNat?)
+  | _ => none
+
+def parsePays (ts : List String) : Option (List Pay) := ts.mapM parsePay
+
+def parseAttrs (r c a o : String) : Option Attrs := do
+  pure ⟨← r.toNat?, ← c.toNat?, ← a.toNat?, ← parseAddr o⟩
+
+def parseOp : List String → Option Op
+  | "stake" :: c :: o :: a :: ps => do pure (.stake (← parseAddr c) (← parseOpt o) (← a.toNat?) (← parsePays ps))
+  | "stakeProxy" :: c :: o :: a :: ps => do
+      pure (.stakeProxy (← parseAddr c) (← parseAddr o) (← a.toNat?) (← parsePays ps))
+  | "stakeBehalf" :: c :: u :: a :: ps => do
+      pure (.stakeBehalf (← parseAddr c) (← parseAddr u) (← a.toNat?) (← parsePays ps))
+  | ["claim", c, o, p] => do pure (.claim (← parseAddr c) (← parseOpt o) (← parsePay p))
+  | ["claimNew", c, o, nv, p] => do
+      pure (.claimNew (← parseAddr c) (← parseAddr o) (← nv.toNat?) (← parsePay p))
+  | "claimBehalf" :: c :: ps => do pure (.claimBehalf (← parseAddr c) (← parsePays ps))
+  | "compound" :: c :: ps => do pure (.compound (← parseAddr c) (← parsePays ps))
+  | ["unstake", c, o, p] => do pure (.unstake (← parseAddr c) (← parseOpt o) (← parsePay p))
+  | ["unstakeProxy", c, o, x, p] => do
+      pure (.unstakeProxy (← parseAddr c) (← parseAddr o) (← x.toNat?) (← parsePay p))
+  | ["unbond", c, p] => do pure (.unbond (← parseAddr c) (← parsePay p))
+  | "merge" :: c :: ps => do pure (.merge (← parseAddr c) (← parsePays ps))
+  | ["claimBoosted", c, u] => do pure (.claimBoosted (← parseAddr c) (← parseOpt u))
+  | ["transfer", a, b, p] => do pure (.transfer (← parseAddr a) (← parseAddr b) (← parsePay p))
+  | ["setEnergy", u, a, l] => do pure (.setEnergy (← parseAddr u) (← a.toNat?) (← l.toNat?))
+  | ["updEnergy", u] => do pure (.updateEnergy (← parseAddr u))
+  | ["topUp", x] => do pure (.topUp (← x.toNat?))
+  | ["withdraw", x] => do pure (.withdraw (← x.toNat?))
+  | ["setApr", x] => do pure (.setMaxApr (← x.toNat?))
+  | ["setPerBlock", x] => do pure (.setPerBlock (← x.toNat?))
+  | ["startProduce"] => some .startProduce
+  | ["endProduce"] => some .endProduce
+  | ["setMinUnbond", e] => do pure (.setMinUnbond (← e.toNat?))
+  | ["setPct", p] => do pure (.setBoostedPct (← p.toNat?))
+  | ["setFactors", a, b, c, d, e] => do
+      pure (.setFactors ⟨← a.toNat?, ← b.toNat?, ← c.toNat?, ← d.toNat?, ← e.toNat?⟩)
+  | ["collectUndist"] => some .collectUndistributed
+  | ["pause"] => some .pause
+  | ["resume"] => some .resume
+  | ["hubWl", u, a] => do pure (.hubWhitelist (← parseAddr u) (← parseAddr a))
+  | ["hubRm", u, a] => do pure (.hubRemove (← parseAddr u) (← parseAddr a))
+  | ["advance", b, e] => do pure (.advance (← b.toNat?) (← e.toNat?))
+  | ["calcAsUser", a, r, c, cur, o] => do pure (.calc false (← a.toNat?) (← parseAttrs r c cur o))
+  | ["calc", a, r, c, cur, o] => do pure (.calc true (← a.toNat?) (← parseAttrs r c cur o))
+  | _ => none
+
+def showEnergy (e : Energy) : String := s!"{e.amount}:{e.lastUpdateEpoch}:{e.totalLocked}"
+
+def showPays (l : List (Tok × Nat)) : String :=
+  if l.isEmpty then "-" else "+".intercalate (l.map fun p => s!"{p.1}:{p.2}")
+
+def showFactors (x : Factors) : String := s!"{x.maxF},{x.cE},{x.cF},{x.minE},{x.minF}"
+
+def showCfg (c : Option BCfg) : String :=
+  match c with
+  | none => "-"
+  | some c => s!"{c.lastUpdateWeek}:" ++ ";".intercalate (c.f.map showFactors)
+
+def showWeek (s : SSt) (k : Nat) : String :=
+  s!" w{k}={s.b.accumulated k}/{s.b.remaining k}/{s.b.farmSupply k}/{s.w.totalEnergy k}/{s.w.totalLocked k}/{showPays (s.w.totalRewards k)}"
+
+def showBuckets (s : SSt) : String :=
+  let ids := (List.range BUCKET_SPAN).map (· + s.w.firstBucketId)
+  let l := ids.filterMap fun i =>
+    let b := s.w.buckets i
+    if b.tokens = 0 ∧ b.surplus = 0 then none else some s!"{i}:{b.tokens}:{b.surplus}"
+  if l.isEmpty then "-" else "+".intercalate l
+
+def showAcct (s : SSt) (i : Nat) : String :=
+  let p := match s.w.progress i with
+    | some p => s!"{p.week}:{showEnergy p.energy}"
+    | none => "-"
+  let e := match s.energy i with
+    | some e => showEnergy e
+    | none => "-"
+  s!" a{nameOf i}={s.userTotal i}/{p}/{e}"
+
+def showTok (s : SSt) (n : Nat) : Option String :=
+  let holders := s.accts.filterMap fun a =>
+    if s.hold a n = 0 then none else some s!"{nameOf a}:{s.hold a n}"
+  if holders.isEmpty then none
+  else
+    let m := match s.md n with
+      | some (.pos a) => s!"P:{a.rps}:{a.compounded}:{a.amount}:{nameOf a.owner}"
+      | some (.unbond e) => s!"U:{e}"
+      | none => "?"
+    some (s!" t{n}={m}@" ++ "+".intercalate holders)
+
+def showState (s : SSt) : String :=
+  let W := s.week
+  let lo := W - 6
+  let weeks := (List.range (W - lo + 1)).map (· + lo)
+  s!"blk={s.block} ep={s.epoch} wk={W} act={if s.active then 1 else 0} rps={s.rps} res={s.reserve} " ++
+  s!"sup={s.supply} last={s.lastBlock} pb={s.perBlock} prod={if s.produce then 1 else 0} " ++
+  s!"pct={s.boostedPct} apr={s.maxApr} mu={s.minUnbond} cap={s.capacity} acc={s.accumulated} " ++
+  s!"bal={s.bal} und={s.undistributed} lcw={s.lastCollectWeek} lgw={s.w.lastGlobalUpdateWeek} " ++
+  s!"fb={s.w.firstBucketId} nonce={s.nonce} virt={s.virt} ub={s.unbondOut} " ++
+  s!"paid={s.paidBase + s.paidBoosted} cfg={showCfg s.b.cfg}" ++
+  String.join (weeks.map (showWeek s)) ++ s!" bk={showBuckets s}" ++
+  String.join (s.accts.map (showAcct s)) ++
+  String.join ((List.range s.nonce).filterMap fun i => showTok s (i + 1))
+
+def initOf (ws : List String) : SSt :=
+  let epoch := (kvNat ws "epoch").getD 5
+  let block := (kvNat ws "block").getD 10
+  let dsc := (kvNat ws "dsc").getD 1000000000000
+  let apr := (kvNat ws "apr").getD 2500
+  let mu := (kvNat ws "mu").getD 5
+  let pb := (kvNat ws "pb").getD 5000
+  let users := (kvNat ws "users").getD 3
+  Staking.init epoch block dsc apr mu pb ((List.range users).map (· + 1) ++ [101, 102]) [101]
+
+def handle (s : SSt) (line : String) : SSt × Option String :=
+  match words line with
+  | "W" :: rest => (initOf rest, some (" ".intercalate ("W" :: rest)))
+  | "O" :: n :: rest =>
+      match (parseOp rest).bind (step s) with
+      | some (s', o) => (s', some s!"R {n} ok {o.a} {o.b} {o.c} | {showState s'}")
+      | none => (s, some s!"R {n} err")
+  | "Q" :: n :: rest =>
+      match (parseOp rest).bind (step s) with
+      | some (s', o) => (s', some s!"V {n} ok {o.c} | {showState s'}")
+      | none => (s, some s!"V {n} err")
+  | _ => (s, none)
+
+end Mx.StakingDriver
+
+def main : IO Unit :=
+  Mx.Proto.mainLoop (Mx.StakingDriver.initOf []) Mx.StakingDriver.handle
